@@ -3,7 +3,7 @@ writer.write_column.  The real make_row_group runs with write_column replaced by
 a symbolic number of bytes and returns a real ColumnChunk carrying symbolic compressed / uncompressed sizes."""
 from typing import List
 
-from vf.pyshim.kit import REPLAY
+from vf.pyshim.kit import REPLAY, Seg
 
 import fastparquet.writer as writer
 from fastparquet import parquet_thrift
@@ -59,10 +59,12 @@ class _F:
         return self.pos
 
 
-def h_make_row_group(rows: int, start: int, u0: int, c0: int, u1: int, c1: int, ic: int, ist: int) -> bool:
+def h_make_row_group(rows: int, start: int, u0: int, c0: int, u1: int, c1: int, ic: int, ist: int,
+                     lmax: int = 3, lmin: int = 2) -> bool:
     """
     pre: 0 <= rows <= 1 << 31 and 0 <= start <= 1 << 40
     pre: 0 <= c0 <= u0 <= 1 << 31 and 0 <= c1 <= u1 <= 1 << 31 and 0 <= ic <= 4 and 0 <= ist <= 4
+    pre: 0 <= lmax <= 1 << 20 and 0 <= lmin <= 1 << 20
     post: __return__
     """
     ic, ist = _pick(ic, 0, 4), _pick(ist, 0, 4)
@@ -80,8 +82,11 @@ def h_make_row_group(rows: int, start: int, u0: int, c0: int, u1: int, c1: int, 
         u, c = sizes[column.name]
         calls.append((column.name, coldata.name, compression, stats, fobj is f, kw))
         fobj.pos += c
+        # the chunk's bounds as write_column computed them: byte strings of any length for the text column
+        st = parquet_thrift.Statistics(null_count=0, max=Seg("max-" + column.name, lmax if column.name == "b" else 8),
+                                       min=Seg("min-" + column.name, lmin if column.name == "b" else 8))
         md = parquet_thrift.ColumnMetaData(type=column.type, path_in_schema=[column.name], num_values=rows,
-                                           total_uncompressed_size=u, total_compressed_size=c)
+                                           total_uncompressed_size=u, total_compressed_size=c, statistics=st)
         return parquet_thrift.ColumnChunk(meta_data=md, file_offset=fobj.pos)
     saved = writer.write_column
     writer.write_column = write_column
@@ -100,12 +105,21 @@ def h_make_row_group(rows: int, start: int, u0: int, c0: int, u1: int, c1: int, 
     if (bool(calls[0][3]), bool(calls[1][3])) != STATS_WANT[ist]:
         return False
     cols = rg.columns
+    # the bounds of each chunk are handed on as write_column computed them (exact: C04)
+    for c, name in zip(cols, "ab"):
+        st = c.meta_data.statistics
+        if st is None or not isinstance(st.max, Seg) or not isinstance(st.min, Seg):
+            return False
+        if st.max.tag != "max-" + name or st.min.tag != "min-" + name:
+            return False
+        if len(st.max) != (lmax if name == "b" else 8) or len(st.min) != (lmin if name == "b" else 8):
+            return False
     return (rg.num_rows == rows and len(cols) == 2 and cols[0].meta_data.path_in_schema == ["a"] and
             cols[1].meta_data.path_in_schema == ["b"] and
             rg.total_byte_size == u0 + u1)            # parquet.thrift: total byte size of all uncompressed column data
 
 
-def replay_h_make_row_group(rows, start, u0, c0, u1, c1, ic, ist):
+def replay_h_make_row_group(rows, start, u0, c0, u1, c1, ic, ist, lmax=3, lmin=2):
     """a real file with the witness's options: the row-group record vs its chunks, codec and statistics per column"""
     import os, shutil, tempfile
     import pandas as pd
@@ -135,6 +149,14 @@ def replay_h_make_row_group(rows, start, u0, c0, u1, c1, ic, ist):
                 if has != ws:
                     return True, "stats=%r: column %s %s min/max" % (
                         STATS[ist], c.meta_data.path_in_schema[0], "has" if has else "has no")
+        # the text column's bounds for values as long as the witness's
+        for ln in sorted({int(lmax), int(lmin), 3}):
+            lo, hi = "a" * ln + "0", "a" * ln + "1"
+            fastparquet.write(fn, pd.DataFrame({"a": [1, 2], "b": [lo, hi]}), stats=True)
+            st = fastparquet.ParquetFile(fn).row_groups[0].columns[1].meta_data.statistics
+            if bytes(st.max) != hi.encode() or bytes(st.min) != lo.encode():
+                return True, ("stats=True, text values of %d characters: the chunk's max/min are %d/%d bytes long - not "
+                              "the largest / smallest value stored" % (ln + 1, len(st.max), len(st.min)))
         return False, "agrees"
     finally:
         shutil.rmtree(d, ignore_errors=True)
